@@ -23,5 +23,8 @@ def fill(add, not_yet):
     add("C14", "Lean 4 state-machine model of the cache wrapper and the 17 methods + theorems (counter-history for the pre-fix code, transparency for the current code) + history correspondence (answers, cache keys, final keys) + bitwise comparison with a fresh uncached object",
         "Proof on the state machine that carries answer classes, error kinds, cache and final keys; random histories are run on a real cached RayGeometry and on the model and compared after every operation; every numerical answer is compared bit for bit with a fresh uncached object and every array is checked read-only.",
         STD_NOTE + "Numerical values are abstracted to classes in the model; their equality is checked against the uncached object, not proved.")
-    for p in ["C02","C03","C04","C05","C06","C07","C08","C09","C10","C11","C12","C16","C17","C19"]:
+    add("C02", "Lean 4 theorems about the delay-and-sum model (mean = (1/N) sum of terms, interpolation specs, amplitude-one law, dispatcher table, geometric-median certificate) + exact-rational (nearest/linear) and Float (Lanczos) correspondence with delay_and_sum + Fraction oracle",
+        "Proof on the polymorphic kernel model; the same definitions are evaluated exactly on rationals by the driver and compared with arim on dyadic data (tolerance 8(N+2) ulp of the summed magnitudes, zero in most cases), including a boundary stream around the window edges; median/Huber are certified through their objectives.",
+        STD_NOTE + "fastmath reassociation, Lanczos kernel values and the two iterative solvers are outside the proofs; known findings K1a-K1e (geomed/huber degenerate inputs) are listed in known_findings.json.")
+    for p in ["C03","C04","C05","C06","C07","C08","C09","C10","C11","C12","C16","C17","C19"]:
         not_yet[p] = "check not built yet in this round (work in progress; Lean-4 proof + correspondence planned, see DESIGN.md section 6)"
